@@ -1388,6 +1388,16 @@ impl Analyzable for Statement
 			} =>
 			{
 				let ref_type = typer.get_type_of_reference(&mut reference);
+				let ref_type = match ref_type
+				{
+					Some(Err(poison)) if reference.base.is_ok() =>
+					{
+						// The steps of the assignee cannot be analyzed.
+						reference.base = Err(poison);
+						Some(Err(Poison::Poisoned))
+					}
+					ref_type => ref_type,
+				};
 				typer.contextual_type = ref_type;
 				let value = value.analyze(typer);
 				typer.contextual_type = None;
